@@ -35,9 +35,41 @@ def strip(t):
     return [{k: v for k, v in r.items() if k not in drop} for r in t]
 
 
-def classify(prop, bad):
+def classify(prop, bad, t=None, line=0):
+    """Label of a rejected step (informational, and the key known findings are matched on). The verdict itself is TLC's."""
     ev = bad.get("ev", "?")
-    return "%s_at_%s" % (prop.lower(), ev)
+    label = "%s_at_%s" % (prop.lower(), ev)
+    if prop == "C06" and ev == "assign_begin" and t:
+        # Is the quota breach entirely explained by addresses of a failed-after-effect assign that still await unassignment?
+        e, fam, n = bad["e"], bad["fam"], bad["n"]
+        cap = t[0]["conf"]["cap"]
+        cur, pending = set(), set()
+        key = "v4" if fam == 4 else "v6"
+        for c in t[0].get("cloud", []):
+            if c["e"] == e:
+                cur |= set(c[key])
+        for r in t[1:line - 1]:
+            if r.get("e") != e:
+                continue
+            if r["ev"] == "create_end":
+                cur |= set(r[key])
+                if r.get("err"):
+                    pending |= set(r[key])
+            elif r["ev"] == "assign_end" and r["fam"] == fam:
+                cur |= set(r["addrs"])
+                if r.get("err"):
+                    pending |= set(r["addrs"])
+            elif r["ev"] == "unassign_begin" and r["fam"] == fam:
+                last_un = set(r["addrs"])
+            elif r["ev"] == "unassign_end" and r["fam"] == fam and r.get("effect"):
+                cur -= last_un
+                pending -= last_un
+            elif r["ev"] == "remote_remove" and r["fam"] == fam:
+                cur.discard(r["a"])
+                pending.discard(r["a"])
+        if len(cur) + n > cap and len(cur - pending) + n <= cap:
+            label = "c06_quota_retry_while_failed_assign_pending"
+    return label
 
 
 def tags(t):
@@ -66,7 +98,7 @@ def run(ctx, prop, relevant):
     for k, line in rej:
         t = traces[k]
         bad = t[line - 1] if line - 1 < len(t) else {}
-        add_violation(ctx, classify(prop, bad), dict(failing_line=line, event=bad, reset=t[0], trace=t[max(1, line - 25):line + 1]),
+        add_violation(ctx, classify(prop, bad, t, line), dict(failing_line=line, event=bad, reset=t[0], trace=t[max(1, line - 25):line + 1]),
                       what="line %d %s" % (line, json.dumps({k: v for k, v in bad.items() if k not in ('seq', 'st', 'cloud')})[:300]))
     tagc = {}
     for t in traces:
